@@ -86,7 +86,7 @@ def composite_key(T, defs, seen=()):
     """Does T contain a mapping whose key type marshals to a non-primitive (list/dict) wire form?"""
     k = T["k"]
     def strip(t):
-        while t["k"] in ("newtype", "alias", "salias", "final", "classvar"):
+        while t["k"] in ("newtype", "alias", "salias", "final", "classvar", "noinit", "annotated"):
             t = t["a"]
         return t
     if k == "map":
